@@ -41,6 +41,11 @@ def obligations(tier, kind='inner', mode='rows', prefix='inner'):
                     config={'nl': 2, 'nr': 2, 'kind': kind, 'mode': 'rejoin', 'K': 1, 'W': 0, 'ktype': 'int', 'spec': 'name', 'nones': False, 'expect': 'many_to_many'},
                     budget=120 if q else 400, bounds='2x2 rows, every key pattern; join once, write a solver-chosen key class into a solver-chosen key cell of either table, join again: the second result follows the new keys',
                     smoke=[[0, 1, 0, 1, 0, 0] + [0] * 6 + [1, 0, 0, 1, 0, 0, 0, 0, 0, 0, 0, 0] + [-1, -1]]))
+    for sp in ('name', 'col'):
+        obs.append(dict(name='%s[self-join,3 rows,spec=%s]' % (prefix, sp), fn='h_join',
+                        config={'nl': 3, 'nr': 0, 'kind': kind, 'mode': 'self', 'K': 1, 'W': 1, 'ktype': 'int', 'spec': sp},
+                        budget=120 if q else 400, bounds='a 3-row table joined with itself (same object both sides), every key pattern incl. a None class, symbolic int payload',
+                        smoke=[[0, 1, 0, 0, 0, 0] + [0] * 6 + [7, 8, 9, 0, 0, 0] + [0] * 6 + [-1, -1]]))
     add(2, 2, Wr=2)
     add(2, 2, Wl=2, W=0)
     for kt in ('str', 'bool', 'date', 'hashy'):
